@@ -33,6 +33,10 @@ def gen(rng, tier):
                 for z in (lim - 1, lim, lim + 1, 0, rng.randrange(lim), rng.randrange(1 << 64), (1 << 64) - 1, 1 << 64, rng.randrange(1 << 70)):
                     sign = rng.choice(["", "+", "-"]) if sg else rng.choice(["", "+"])
                     yield f"from_str {s}{cfg} {(sign + str(z)).encode().hex()}", "from_str"
+                for k in (1, 7, W - 1, W, W + 1, 2 * W):
+                    for sgn in "+-":
+                        yield f"from_str {s}{cfg} {('0' * k + sgn + str(rng.randrange(1, 100))).encode().hex()}", "from_str-zeros-then-sign"
+                    yield f"from_str {s}{cfg} {('0' * k + str(rng.randrange(0, 100))).encode().hex()}", "from_str-zeros"
                 for junk in ("", "+", "-", "12a", " 1", "1_0"):
                     yield f"from_str {s}{cfg} {junk.encode().hex() or '-'}", "from_str-junk"
                 for mode in ("dbg", "rel"):
